@@ -15,7 +15,8 @@ RULE = ("binImgs: shapes (..., a*n, b*n) with 0-2 leading axes, n in 1..6, float
         "Gaussian / off-centre single-pixel non-negative images, fractions in (0,1): starts at 0, monotone, <= 1, both "
         "return modes consistent, reported diameter brackets the crossing, Gaussian trend. Non-trivial: binning n>=2 on a "
         "stack; non-square target or order 5; off-centre energy. Distinct = canonical JSON."
-        " Also: bin factors one ulp off an integer and numpy.float32; zoom of integer-typed counts (a quadratic >= 0 at the nodes and negative between two of them; arbitrary counts vs float64).")
+        " Also: bin factors one ulp off an integer and numpy.float32; zoom of integer-typed counts (a quadratic >= 0 at the nodes and negative between two of them; arbitrary counts vs float64)."
+        " Encircled energy on odd and even sides, and on float32 / float16 copies of the image judged at the precision of the type.")
 ASSUMPTIONS = ["zoom output[i, j] is the spline evaluated at (linspace(0,n-1,kx)[i], linspace(0,n-1,ky)[j]) - first requested size = first axis",
                "binning of integer / boolean frames is judged against the sums as numbers (int64), not modulo the container's range",
                "encircled-energy Gaussian comparison is a trend check with bound 0.12/sigma"]
